@@ -10,7 +10,7 @@ Definition fresh (r : rep) (id : bid) : Prop := forall k, ~ In (k, id) (elems r)
 Record linv (l : lrep) : Prop := mk_linv {
   J1 : forall k p v, aget k (reg (l_st l)) = Some (p, v) -> p <= l_height l;
   J2 : forall k id, In (k, id) (elems (l_st l)) -> id < l_next l;
-  J3 : forall dc idf, l_lastf l = Some (dc, idf) -> idf < l_next l /\ fresh (l_st l) idf;
+  J3 : forall dc idf, In (dc, idf) (l_lastf l) -> idf < l_next l /\ fresh (l_st l) idf;
   J4 : forall x, In x (snd (cur_dc l)) -> In x (elems (l_st l));
   J4t : forall x, In x (tombs (l_st l)) -> In x (elems (l_st l));
   J5 : live_has_reg (l_st l) }.
@@ -20,9 +20,8 @@ Proof. constructor; simpl; try (intros; tauto); try discriminate; intros k L; un
 
 Lemma pub_id_fresh l dc : linv l -> fresh (l_st l) (pub_id l dc) /\ pub_id l dc <= l_next l.
 Proof.
-  intros I. unfold pub_id. destruct (l_lastf l) as [[dc' idf]|] eqn:E.
-  - destruct (J3 l I dc' idf E) as [A B]. destruct (dc_eqb dc dc'); [split; auto; lia|].
-    split; [|lia]. intros k C. apply (J2 l I) in C. lia.
+  intros I. unfold pub_id. destruct (find _ (l_lastf l)) as [[dc' idf]|] eqn:E.
+  - apply find_some in E. destruct E as [E _]. destruct (J3 l I dc' idf E) as [A B]. simpl. split; auto; lia.
   - split; [|lia]. intros k C. apply (J2 l I) in C. lia.
 Qed.
 
@@ -186,31 +185,33 @@ Proof.
   { destruct (N.eqb_spec id (l_next l)); lia. }
   destruct p; try congruence; unfold batch_commit, publish; fold dc; fold id; fold d; cbn [fst snd pres_ok l_st l_height l_next l_lastf l_cur].
   - (* POk *)
-    assert (I' : linv (mk_lrep (merge (l_st l) d) (l_height l + 1) (if id =? l_next l then l_next l + 1 else l_next l) None None)).
+    assert (I' : linv (mk_lrep (merge (l_st l) d) (l_height l + 1) (if id =? l_next l then l_next l + 1 else l_next l) [] None)).
     { constructor; cbn [l_st l_height l_next l_lastf l_cur].
       - intros k p v. rewrite reg_merge. destruct (last_of k _) eqn:E.
         + intros H. inversion H; subst. simpl. lia.
         + intros H. apply (J1 l I) in H. lia.
       - intros k i Hin. rewrite elems_merge in Hin. apply in_app_iff in Hin. destruct Hin as [Hin|Hin]; [eauto|].
         apply in_map_iff in Hin. destruct Hin as [kv [E _]]. simpl in E. inversion E; subst. exact IDN.
-      - discriminate.
+      - intros dc0 idf [].
       - unfold cur_dc. simpl. tauto.
       - intros x Hx. rewrite tombs_merge in Hx. rewrite elems_merge. apply in_app_iff. left.
         apply in_app_iff in Hx. destruct Hx as [Hx|Hx]; [now apply (J4t l I)|now apply (J4 l I)].
       - apply merge_live_has_reg; [unfold wf_delta; simpl; lia|apply (J5 l I)]. }
     split; auto. intros k. rewrite value_eq_view_when_empty by (auto; reflexivity). simpl. apply (A k).
   - (* PFailTombs: nothing written *)
-    assert (I' : linv (mk_lrep (l_st l) (l_height l) (if id =? l_next l then l_next l + 1 else l_next l) (Some (dc, id)) (l_cur l))).
+    assert (I' : linv (mk_lrep (l_st l) (l_height l) (if id =? l_next l then l_next l + 1 else l_next l) ((dc, id) :: l_lastf l) (l_cur l))).
     { constructor; cbn [l_st l_height l_next l_lastf l_cur]; try apply I.
       - intros k i Hin. eauto.
-      - intros dc0 idf E. inversion E; subst. split; auto. }
+      - intros dc0 idf [E|E]; [inversion E; subst; split; auto|].
+        destruct (J3 l I dc0 idf E) as [E1 E2]. split; [destruct (id =? l_next l); lia|exact E2]. }
     split; auto. intros k. rewrite view_eq by auto. specialize (A k). rewrite view_eq in A by auto. exact A.
   - (* PFailElems: the tombstones are written, the elements are not *)
-    set (l' := mk_lrep (put_tombs (l_st l) d) (l_height l) (if id =? l_next l then l_next l + 1 else l_next l) (Some (dc, id)) (l_cur l)).
+    set (l' := mk_lrep (put_tombs (l_st l) d) (l_height l) (if id =? l_next l then l_next l + 1 else l_next l) ((dc, id) :: l_lastf l) (l_cur l)).
     assert (I' : linv l').
     { constructor; cbn [l' l_st l_height l_next l_lastf l_cur]; try apply I.
       - intros k i Hin. eauto.
-      - intros dc0 idf E. inversion E; subst. split; auto.
+      - intros dc0 idf [E|E]; [inversion E; subst; split; auto|].
+        destruct (J3 l I dc0 idf E) as [E1 E2]. split; [destruct (id =? l_next l); lia|exact E2].
       - intros x Hx. apply in_app_iff in Hx. destruct Hx as [Hx|Hx]; [now apply (J4t l I)|now apply (J4 l I)].
       - intros k L. apply (J5 l I). eapply put_tombs_live; eauto. }
     change (linv l' /\ agrees l' m).
@@ -281,20 +282,22 @@ Proof.
     - (* PFailTombs: nothing is written *)
       unfold publish. cbn [fst pres_ok].
       destruct (pub_id_fresh l dc I) as [FR LE].
-      assert (I' : linv (mk_lrep (l_st l) (l_height l) (if pub_id l dc =? l_next l then l_next l + 1 else l_next l) (Some (dc, pub_id l dc)) (l_cur l))).
+      assert (I' : linv (mk_lrep (l_st l) (l_height l) (if pub_id l dc =? l_next l then l_next l + 1 else l_next l) ((dc, pub_id l dc) :: l_lastf l) (l_cur l))).
       { constructor; cbn [l_st l_height l_next l_lastf l_cur]; try apply I.
         - intros k i Hin. apply (J2 l I) in Hin. destruct (_ =? _); lia.
-        - intros dc0 idf E. inversion E; subst. split; auto. destruct (N.eqb_spec (pub_id l dc) (l_next l)); lia. }
+        - intros dc0 idf [E|E]; [inversion E; subst; split; auto; destruct (N.eqb_spec (pub_id l dc) (l_next l)); lia|].
+          destruct (J3 l I dc0 idf E) as [E1 E2]. split; [destruct (_ =? _); lia|exact E2]. }
       split; [|split]; auto. intros k0. rewrite value_eq_view_when_empty; [apply VL|auto|unfold cur_dc; simpl; now rewrite CN].
     - (* PFailElems: only a pin has elements, and it has no tombstones: nothing is written *)
       destruct o as [k v|k]; [|unfold pres_possible in PP; simpl in PP; discriminate].
       unfold publish. cbn [fst pres_ok].
       destruct (pub_id_fresh l dc I) as [FR LE].
       set (d := mk_delta (pub_id l dc) (l_height l + 1) (fst dc) (snd dc)).
-      assert (I' : linv (mk_lrep (put_tombs (l_st l) d) (l_height l) (if pub_id l dc =? l_next l then l_next l + 1 else l_next l) (Some (dc, pub_id l dc)) (l_cur l))).
+      assert (I' : linv (mk_lrep (put_tombs (l_st l) d) (l_height l) (if pub_id l dc =? l_next l then l_next l + 1 else l_next l) ((dc, pub_id l dc) :: l_lastf l) (l_cur l))).
       { constructor; cbn [l_st l_height l_next l_lastf l_cur]; try apply I.
         - intros k0 i Hin. apply (J2 l I) in Hin. destruct (_ =? _); lia.
-        - intros dc0 idf E. inversion E; subst. split; auto. destruct (N.eqb_spec (pub_id l dc) (l_next l)); lia.
+        - intros dc0 idf [E|E]; [inversion E; subst; split; auto; destruct (N.eqb_spec (pub_id l dc) (l_next l)); lia|].
+          destruct (J3 l I dc0 idf E) as [E1 E2]. split; [destruct (_ =? _); lia|exact E2].
         - intros x Hx. simpl in Hx. apply in_app_iff in Hx. destruct Hx as [Hx|[]]. now apply (J4t l I).
         - intros k0 L. apply (J5 l I). eapply put_tombs_live; eauto. }
       split; [|split]; auto. intros k0. rewrite value_eq_view_when_empty; [|auto|unfold cur_dc; simpl; now rewrite CN].
